@@ -4,6 +4,7 @@ import (
 	"fmt"
 	"go/ast"
 	"go/token"
+	"os"
 	"strconv"
 	"strings"
 )
@@ -369,6 +370,24 @@ func genAnchorTemplate(repo string) (string, error) {
 		}
 		return true
 	})
+	// docs/commands/members.html.markdown: which filter options are documented as a full match
+	docB, err := os.ReadFile(repo + "/docs/commands/members.html.markdown")
+	if err != nil {
+		return "", err
+	}
+	var docFacts []string
+	for _, para := range strings.Split(string(docB), "\n\n") {
+		txt := strings.Join(strings.Fields(para), " ")
+		if !strings.HasPrefix(txt, "* `-") {
+			continue
+		}
+		opt := strings.SplitN(strings.TrimPrefix(txt, "* `"), "`", 2)[0]
+		if !strings.Contains(txt, "regular expression") {
+			continue
+		}
+		full := strings.Contains(txt, "anchored at the start and end") && strings.Contains(txt, "must be a full match")
+		docFacts = append(docFacts, fmt.Sprintf("(%q, %v)", strings.Fields(opt)[0], full))
+	}
 	q := func(l []string) string { return "[" + strings.Join(l, ", ") + "]" }
 	var b strings.Builder
 	b.WriteString("-- GENERATED by /verif/extract from /repo/cmd/serf/command/agent/ipc.go (filterMembers, compileAnchored, handleMembers) — do not edit.\n")
@@ -396,6 +415,8 @@ func genAnchorTemplate(repo string) (string, error) {
 	fmt.Fprintf(&b, "def errorReturns : List String := %s\n\n", q(er))
 	b.WriteString("/-- `handleMembers`: the call of the filter and the statement that follows it -/\n")
 	fmt.Fprintf(&b, "def handler : String := %q\n", onError)
+	b.WriteString("\n/-- docs/commands/members.html.markdown: every option documented as a regular-expression filter, and\nwhether its paragraph says \"anchored at the start and end, and must be a full match\" -/\n")
+	fmt.Fprintf(&b, "def documentedFilters : List (String × Bool) := %s\n", q(docFacts))
 	b.WriteString("\nend SerfModel.Gen.AnchorTemplate\n")
 	return b.String(), nil
 }
